@@ -166,6 +166,8 @@ let linecol_fields (src : n list) (pos : nat) : Stdlib.String.t =
 (* ---------- cases ---------- *)
 let canon_bits (f : spec_float) : Stdlib.String.t = hex16_of_n (f_bits f)
 
+let big_fuel = lazy (nat_of_int 3000000)
+
 let run_case (fields : Stdlib.String.t list) : Stdlib.String.t =
   match fields with
   | "LEX" :: id :: src :: [] ->
@@ -222,6 +224,118 @@ let run_case (fields : Stdlib.String.t list) : Stdlib.String.t =
       | "ofint", [a] -> canon_bits (f_of_Z (z_of_decimal a))
       | _ -> "unsupported" in
     Stdlib.Printf.sprintf "RES %s %s" id r
+
+  | "RUN" :: id :: fuzz :: prog :: rest ->
+    (* RUN <id> <fuzz> <prog> <nsel> <sel>* <nfiles> (<name> <fail> <nchunks> <chunk>* )* *)
+    let rest = ref rest in
+    let next () = match !rest with x :: r -> rest := r; x | [] -> failwith "fields" in
+    let nsel = int_of_string (next ()) in
+    let sels = Stdlib.List.init nsel (fun _ -> bytes_of_hex (next ())) in
+    let nfiles = int_of_string (next ()) in
+    let files = Stdlib.List.init nfiles (fun _ ->
+      let name = bytes_of_hex (next ()) in
+      let fail = next () = "1" in
+      let nch = int_of_string (next ()) in
+      let chunks = Stdlib.List.init nch (fun _ -> bytes_of_hex (next ())) in
+      (name, { chunks = chunks; fails = fail })) in
+    if !rest <> [] then failwith "trailing";
+    let res = eval_program (Stdlib.Lazy.force big_fuel) (bytes_of_hex prog) files sels (fuzz = "1") in
+    let st = res.r_state in
+    let iolog =
+      let evs = Stdlib.List.rev st.io in
+      match evs with
+      | [] -> "-"
+      | _ -> Stdlib.String.concat "," (Stdlib.List.map (function
+          | IoWrite b -> Stdlib.Printf.sprintf "W%d" (Stdlib.List.length b)
+          | IoRead k -> Stdlib.Printf.sprintf "R%d" (int_of_nat k)
+          | IoReadEOF -> "RE"
+          | IoReadFail -> "RX") evs) in
+    let out = hex_of_bytes (output_of st.io) in
+    let errf (e : errinfo) = Stdlib.Printf.sprintf "%d %d %s" (int_of_nat e.eline) (int_of_z e.ecol) (hex_of_bytes e.esrcline) in
+    let depth = int_of_nat (frame_depth st) in
+    (match res.r_outcome with
+     | OOk ->
+       let j = match get_root_json st with
+         | JsonText b -> hex_of_bytes b | JsonError -> "!" | JsonFuel -> "F" in
+       Stdlib.Printf.sprintf "RES %s ok 0 0 - %s %s %d %s" id out j depth iolog
+     | OSyntax e -> Stdlib.Printf.sprintf "RES %s syntax %s %s ~ -1 %s" id (errf e) out iolog
+     | ORuntime e -> Stdlib.Printf.sprintf "RES %s runtime %s %s ~ %d %s" id (errf e) out depth iolog
+     | OJson -> Stdlib.Printf.sprintf "RES %s json 0 0 - %s ~ %d %s" id out depth iolog
+     | ORaw -> Stdlib.Printf.sprintf "RES %s raw 0 0 - %s ~ %d %s" id out depth iolog
+     | OPanic -> Stdlib.Printf.sprintf "RES %s panic 0 0 - %s ~ -1 %s" id out iolog
+     | OFuel -> Stdlib.Printf.sprintf "RES %s fuel 0 0 - %s ~ -1 %s" id out iolog
+     | OUnsupp -> Stdlib.Printf.sprintf "RES %s unsupported 0 0 - %s ~ -1 %s" id out iolog)
+  | "EXPR" :: id :: src :: rootjson :: [] ->
+    let doc = match bytes_of_hex rootjson with
+      | [] -> Some JNull
+      | b -> (match decode_next b with DValue (v, _) -> Some v | _ -> None) in
+    (match doc with
+     | None -> Stdlib.Printf.sprintf "RES %s badcase" id
+     | Some doc ->
+       let r = eval_expression_api (Stdlib.Lazy.force big_fuel) (bytes_of_hex src) doc in
+       let out = hex_of_bytes (output_of r.x_state.io) in
+       let errf (e : errinfo) = Stdlib.Printf.sprintf "%d %d %s" (int_of_nat e.eline) (int_of_z e.ecol) (hex_of_bytes e.esrcline) in
+       (match r.x_outcome with
+        | OOk ->
+          let p = match r.x_pretty with Some b -> hex_of_bytes b | None -> "F" in
+          Stdlib.Printf.sprintf "RES %s ok 0 0 - %s %s" id out p
+        | OSyntax e -> Stdlib.Printf.sprintf "RES %s syntax %s %s ~" id (errf e) out
+        | ORuntime e -> Stdlib.Printf.sprintf "RES %s runtime %s %s ~" id (errf e) out
+        | OJson -> Stdlib.Printf.sprintf "RES %s json 0 0 - %s ~" id out
+        | ORaw -> Stdlib.Printf.sprintf "RES %s raw 0 0 - %s ~" id out
+        | OPanic -> Stdlib.Printf.sprintf "RES %s panic 0 0 - %s ~" id out
+        | OFuel -> Stdlib.Printf.sprintf "RES %s fuel 0 0 - %s ~" id out
+        | OUnsupp -> Stdlib.Printf.sprintf "RES %s unsupported 0 0 - %s ~" id out))
+  | "JSONDEC" :: id :: fail :: nch :: chunks ->
+    let n = int_of_string nch in
+    if Stdlib.List.length chunks <> n then failwith "chunks";
+    let rd = { chunks = Stdlib.List.map bytes_of_hex chunks; fails = (fail = "1") } in
+    let rec loop d acc k =
+      if k = 0 then Stdlib.List.rev ("FUEL" :: acc) else
+      let ((r, d'), _) = dec_step d in
+      match r with
+      | SValue v ->
+        let h = match marshal_compact v with Some b -> hex_of_bytes b | None -> "!" in
+        loop d' (("V" ^ h) :: acc) (k - 1)
+      | SEof -> Stdlib.List.rev ("EOF" :: acc)
+      | SErr -> Stdlib.List.rev ("ERR" :: acc)
+      | SUnsupported -> Stdlib.List.rev ("UNSUPPORTED" :: acc) in
+    Stdlib.Printf.sprintf "RES %s %s" id (Stdlib.String.concat "," (loop (dec_init rd) [] 100000))
+  | "JSONENC" :: id :: js :: [] ->
+    (match decode_next (bytes_of_hex js) with
+     | DValue (v, _) ->
+       (match marshal_indent v with
+        | Some b -> Stdlib.Printf.sprintf "RES %s %s" id (hex_of_bytes b)
+        | None -> Stdlib.Printf.sprintf "RES %s !" id)
+     | _ -> Stdlib.Printf.sprintf "RES %s !" id)
+  | "REGEX" :: id :: pat :: subj :: [] ->
+    (match regex_match (bytes_of_hex pat) (bytes_of_hex subj) with
+     | RxMatch true -> Stdlib.Printf.sprintf "RES %s m1" id
+     | RxMatch false -> Stdlib.Printf.sprintf "RES %s m0" id
+     | RxBadPattern -> Stdlib.Printf.sprintf "RES %s bad" id
+     | RxUnsupported -> Stdlib.Printf.sprintf "RES %s unsupported" id)
+  | "STRFN" :: id :: fn :: args ->
+    let pieces l = match l with [] -> "-" | _ -> Stdlib.String.concat "," (Stdlib.List.map hex_of_bytes l) in
+    (match fn, args with
+     | "upper", [s] -> (match to_upper (bytes_of_hex s) with
+         | CaseOk b -> Stdlib.Printf.sprintf "RES %s %s" id (hex_of_bytes b)
+         | CaseUnsupported -> Stdlib.Printf.sprintf "RES %s unsupported" id)
+     | "lower", [s] -> (match to_lower (bytes_of_hex s) with
+         | CaseOk b -> Stdlib.Printf.sprintf "RES %s %s" id (hex_of_bytes b)
+         | CaseUnsupported -> Stdlib.Printf.sprintf "RES %s unsupported" id)
+     | "split", [s; sep] -> Stdlib.Printf.sprintf "RES %s %s" id (pieces (split (bytes_of_hex s) (bytes_of_hex sep)))
+     | "runes", [s] ->
+       let rs = runes (bytes_of_hex s) in
+       let str = match rs with [] -> "-" | _ -> Stdlib.String.concat "," (Stdlib.List.map (fun (i, b) ->
+         Stdlib.Printf.sprintf "%d:%s" (int_of_nat i) (hex_of_bytes b)) rs) in
+       Stdlib.Printf.sprintf "RES %s %s" id str
+     | _ -> Stdlib.Printf.sprintf "RES %s badcase" id)
+  | "CAPFROM" :: id :: n :: [] ->
+    Stdlib.Printf.sprintf "RES %s %d" id (int_of_nat (grow_cap (nat_of_int (int_of_string n))))
+  | "SORTF" :: id :: l :: [] ->
+    let xs = if l = "-" then [] else Stdlib.List.map (fun h -> f_of_bits (n_of_hex h)) (Stdlib.String.split_on_char ',' l) in
+    let ys = sort_floats xs in
+    Stdlib.Printf.sprintf "RES %s %s" id (match ys with [] -> "-" | _ -> Stdlib.String.concat "," (Stdlib.List.map canon_bits ys))
   | _ :: id :: _ -> Stdlib.Printf.sprintf "RES %s unsupported" id
   | _ -> "RES ? badcase"
 
